@@ -125,10 +125,19 @@ CLAIMED["C07"] = dict(
          "C07_current_scope_raw — text is written unescaped iff the parent is an HTML-namespace raw-text element "
          "(and scripting is on, for noscript). The `_partial`, `_witness_*` and `C07_pinned_*` theorems record the three "
          "defects of the pinned snapshot that were repaired by fix: commits (0xC2 lead byte dropped; namespace of the "
-         "ChildrenOnly parent ignored; void ChildrenOnly parent). NOT proved: the first sentence of the property as a "
-         "whole — that parse_fragment(serialize(t)) = t through the real tokenizer and tree builder; it is checked on "
-         "the real code only (rt= oracle: real parse_fragment(context div) of the serialized children of seeded random "
-         "ordinary trees and boundary strings), together with inner = outer on the real code for every element of "
+         "ChildrenOnly parent ignored; void ChildrenOnly parent). THE ROUND TRIP (Props/C07RT.lean): C07_roundtrip - for "
+         "every forest of ordinary elements (names without an in-body rule of their own, the plain block elements, properly "
+         "nested formatting elements other than a/nobr; distinct lower-case attribute names; values and text free of CR/NUL; "
+         "non-empty non-adjacent text) the serializer model writes renderF f and the fragment parser model (context div; "
+         "tokenizer model with the tree-builder model as its sink; feed, end, TreeBuilder::end; every tree-builder option set, "
+         "scripting on/off, exact_errors off) run on that text returns exactly f under the root and reports no parse error; "
+         "layers C07_tok_roundtrip (token stream of the serialisation) and C07_tb_roundtrip (tree builder on the token "
+         "image, any splitting of text into character tokens). Hypothesis noLeadingBom: with the default discard_bom a "
+         "U+FEFF that starts the serialisation is dropped (C07_witness_leading_bom; KNOWN FINDING C07-leading-bom, confirmed "
+         "on the real code, documented option, recorded not repaired). Outside that vocabulary (p, headings, li, option, a, "
+         "nobr ...) and for the real code the round trip is checked by the rt= oracle (real parse_fragment(context div) of "
+         "the serialized children of seeded random ordinary trees, formatting-element trees and boundary strings, with "
+         "discard_bom off, with the default options, and in pieces), together with inner = outer on the real code for every element of "
          "every generated and every parsed tree × both scripting settings, and byte equality with an independent "
          "python reference serializer.",
     note="Trusted: Lean kernel; the hand-written model lean/H5V/Model/HtmlSer.lean + the ser correspondence "
@@ -461,9 +470,15 @@ CLAIMED["C06"] = dict(
          "loses nothing; an empty character token (also one emptied by ignore_lf) makes no tree-changing sink call; every "
          "text insertion the builder can make is a non-detaching call and every contract-abiding sequence of non-detaching "
          "calls keeps 'no two adjacent text siblings' (on C20's sink theorems); for every option set EOF in the initial "
-         "mode synthesises html/head/body, satisfies Skeleton and does not panic. NOT proved: Skeleton for all documents "
-         "(the DOM-shape invariant indexed by insertion mode, and that remove_from_parent / reparent_children in the "
-         "adoption agency and frameset-replaces-body never expose two text siblings). That part is carried by (a) the "
+         "mode synthesises html/head/body, satisfies Skeleton and does not panic. Proved for ALL token lists and option sets "
+         "(Props/C06Inv.lean, invariant over every insertion mode, the adoption agency, foster parenting and the "
+         "selectedcontent mirror): the document's children are comment* doctype? comment* html comment* with html present "
+         "once EOF has been processed, no text node is a child of the document, no text node anywhere is empty, only "
+         "elements / the document / template-contents fragments have children, template contents are fragments distinct "
+         "from the document. NOT proved: the html-children clause (head then body | frameset noframes*: false as stated, see "
+         "FINDING; its true core needs per-mode stack-shape invariants), 'only whitespace text under html', and that "
+         "remove_from_parent / reparent_children in the adoption agency and frameset-replaces-body never expose two text "
+         "siblings. That part is carried by (a) the "
          "oracle: Skeleton (document children comment* doctype? comment* html comment*; html's element children head then "
          "body | frameset noframes*; no empty text; no text under the document; only whitespace text under html; only "
          "elements/documents/template contents have children; no adjacent text siblings; parent pointers consistent; "
@@ -492,10 +507,11 @@ CLAIMED["C02"] = dict(
               "shape-checked) proved equal to frozen WHATWG tables (lean/H5V/Spec/TreeTables.lean) and to the model's "
               "tables + per-mechanism spec-equivalence theorems against independent transcriptions of the standard "
               "(lean/H5V/Spec/TreeAlgo.lean: quirks mode, scope predicates, implied end tags, reset the insertion mode, "
-              "tree-construction dispatcher, attribute / tag-name adjustment and foreign break-out, adoption-agency outer "
-              "loop) + model/code correspondence on the tb engine + differential of the real code against the patched "
+              "tree-construction dispatcher, attribute / tag-name adjustment and foreign break-out; Spec/TreeAlgo2.lean: "
+              "appropriate place / foster parenting, element / character / comment insertion, reconstruct the active "
+              "formatting elements, Noah's ark, the adoption agency algorithm in full, clear-the-stack, close p / cell) + model/code correspondence on the tb engine + differential of the real code against the patched "
               "html5lib reference + option relations and a prefix oracle on the real code",
-    text="PARTIAL. Proved (kernel-checked, for all inputs; 47 theorems): (1) every table of the tree builder as "
+    text="PARTIAL. Proved (kernel-checked, for all inputs; 76 theorems): (1) every table of the tree builder as "
          "regenerated from the source equals the standard's — special category, the scope sets, implied end tags, "
          "formatting elements, table contexts, foster-parenting targets, integration points, the 55+3+1+2+2 quirks "
          "identifiers, SVG tag-name / SVG attribute / MathML attribute / foreign attribute adjust tables incl. prefixes, "
@@ -505,10 +521,16 @@ CLAIMED["C02"] = dict(
          "list-item/button/table scope over every stack), C02_spec_implied_end_tags (plain / except x / thorough, fuel "
          "shown sufficient), C02_spec_reset_insertion_mode (fragment context, template modes, head pointer), "
          "C02_spec_dispatcher (is_foreign = not useHtmlRules), C02_spec_adjust_attributes, "
-         "C02_spec_svg_tag_name_and_breakout, C02_spec_adoption_outer_loop (bounded loop of 8). NOT proved: Noah's Ark "
-         "push = Spec.noahPush and the adoption agency as a whole (only its loop constants and outer-loop structure; "
-         "statements kept in C02.lean's header), C02_table_body_end_ok_partial (parse-error-only table lacks rb/rtc), and "
-         "the per-insertion-mode rule arms (rules.rs) as a whole — no complete independent Lean transcription of "
+         "C02_spec_svg_tag_name_and_breakout, C02_spec_adoption_outer_loop (bounded loop of 8); and (Props/C02Algo.lean, "
+         "against Spec/TreeAlgo2.lean, as total-correctness triples that fix the exact list of TreeSink calls, i.e. the "
+         "DOM edit log): the appropriate place for inserting a node incl. foster parenting and template contents, insert "
+         "an HTML / foreign element, a character, a comment, reconstruct the active formatting elements, the Noah's-ark "
+         "push, clear the list up to the last marker, THE ADOPTION AGENCY ALGORITHM IN FULL (steps 1-20: shortcut, "
+         "formatting-element lookup, furthest block, inner loop with the 3-iteration rule, bookmark, reparenting, stack and "
+         "list updates, fallback to 'any other end tag'), any-other-end-tag, generate implied end tags, clear the stack "
+         "back to a table / table body / table row context, pop-until, close a p element, close the cell, stop parsing. "
+         "NOT proved: C02_table_body_end_ok_partial (parse-error-only table lacks rb/rtc), handle_misnested_a_tags, parse "
+         "errors, and the per-insertion-mode rule arms (rules.rs) as a whole — no complete independent Lean transcription of "
          "section 13.2.6 exists here. That part is carried by (a) the differential against the patched html5lib 1.1 "
          "reference on documents and HTML-context fragments, scripting on/off (directed token families rendered as text, "
          "dispatcher cover, themed tag soup, doctype identifiers in mixed case / truncated / extended; thorough tier: "
